@@ -104,6 +104,18 @@ func (fx *FnCtx) runGhost(site string, st *State, env *Env) {
 		}
 		ga.used++
 		for _, gs := range ga.Stmts {
+			if gs.Assert != nil {
+				env.st = st
+				cond := fx.evalBool(env, gs.Assert)
+				pc := env.pc
+				if pc == nil {
+					pc = True
+				}
+				name := fx.oblName(strings.ReplaceAll(site, " ", "") + ".assert")
+				fx.addObl(name, "assert", pc, cond, nil, nil, "intermediate assertion at "+site+": "+gs.Src)
+				fx.assume(Implies(pc, cond))
+				continue
+			}
 			cur, ok := st.Ghost[gs.Name]
 			if !ok {
 				fx.fail("ghost statement assigns undeclared ghost variable %s", gs.Name)
